@@ -25,7 +25,7 @@ TraceReset ==
   /\ IsReset
   /\ srv' = SrvFrom(Ev.servers) /\ vol' = VolFrom(Ev.reps) /\ rep' = RepFrom(Ev.reps) /\ rep0' = RepFrom(Ev.reps)
   /\ ec' = EcFrom(Ev.shards) /\ ec0' = EcFrom(Ev.shards) /\ mode' = Ev.mode /\ phase' = "plan"
-  /\ hist' = <<>>     \* in the judge: the targets whose missing free slot was excused by C16-shard-dropped
+  /\ hist' = <<>>     \* in the judge: <<target, counter - real free slots>> of every move excused by C16-shard-dropped
   /\ UNCHANGED steps
 TraceSkip == SkipStep /\ UNCHANGED vars
 Rest == UNCHANGED <<phase, steps, hist>>
@@ -65,7 +65,8 @@ EcExcuse(c) ==
          \* duplicate is planned onto the server that holds the other copy
     [] c = "slot" /\ mode = "ecbalance" /\ Ev.tofree > 0 -> "C16-shard-dropped"
          \* S21 consequence: shards dropped from the bookkeeping still occupy slots, but the planner's
-         \* own free-slot counter for the target (tofree) is positive
+         \* own free-slot counter for the target (tofree) is positive.  The counter may exceed the real
+         \* number of free slots only by the number of forgotten shards on the target: checked at final
     [] c = "slot" /\ mode = "ecbalance" /\ phase = "racks" /\ Ev.tofree <= 0 /\ RackOf(Ev.from) = RackOf(Ev.to) -> "C16-rack-full"
          \* balanceEcRacks moves to the server with the most free slots of the rack without testing
          \* that it has any (the planner's own counter is <= 0)
@@ -76,7 +77,8 @@ TEcMove ==
        /\ EcMove(Ev.vid, Ev.shard, Ev.from, Ev.to, W)
        /\ {EcExcuse(c) : c \in W} \subseteq KF
        /\ used' = used \cup {EcExcuse(c) : c \in W}
-       /\ hist' = IF "slot" \in W /\ EcExcuse("slot") = "C16-shard-dropped" THEN Append(hist, Ev.to) ELSE hist
+       /\ hist' = IF "slot" \in W /\ EcExcuse("slot") = "C16-shard-dropped"
+                  THEN Append(hist, <<Ev.to, Ev.tofree - EcFree(ec, Ev.to)>>) ELSE hist
 
 (* the planner starts its next part: "volumes" (per-volume balancing), "racks" (balanceEcRacks) *)
 TPhase == IsEvent("phase") /\ Strict /\ phase' = Ev.name /\ UNCHANGED <<srv, vol, rep, ec, ec0, rep0, mode, steps, hist>>
@@ -94,8 +96,9 @@ TFinal ==
              /\ \A k \in Keys(B) : Copies16(B, k[1], k[2]) <= Copies16(ec0, k[1], k[2])
              /\ B \subseteq ec     \* what is left in the bookkeeping is where the plan says it is
              /\ (ec \ B) \subseteq ec0   \* what was forgotten was never moved: it is where the snapshot had it
-             (* every full target that was excused above really has shards the bookkeeping forgot *)
-             /\ \A i \in DOMAIN hist : \E e \in ec \ B : e.srv = hist[i]
+             (* every full target that was excused above really holds at least as many forgotten shards as
+                the planner's counter exceeded the real number of free slots (from the snapshot + moves) *)
+             /\ \A i \in DOMAIN hist : Card({e \in ec \ B : e.srv = hist[i][1]}) >= hist[i][2]
 
 TraceNext == TraceReset \/ TraceSkip \/ TMove \/ TCopy \/ TDelete \/ TEcMove \/ TPhase \/ TFinal
 TraceSpec == TraceInit /\ [][TraceNext]_tvars
